@@ -111,6 +111,20 @@ impl SendDispatcher<'_> {
     }
 }
 
+#[cfg(feature = "verif-hooks")]
+impl<'a> SendDispatcher<'a> {
+    /// Verification hook: hands every boxed system to `f` with its
+    /// (stage, group, position) coordinates.
+    pub fn verif_visit<'s>(
+        &'s mut self,
+        f: &mut dyn FnMut(usize, usize, usize, &'s mut (dyn for<'x> RunNow<'x> + Send + 'a)),
+    ) {
+        for (s, stage) in self.stages.iter_mut().enumerate() {
+            stage.verif_visit(&mut |g, p, sys| f(s, g, p, sys));
+        }
+    }
+}
+
 impl RunNow<'_> for SendDispatcher<'_> {
     fn run_now(&mut self, world: &World) {
         self.dispatch(world);
